@@ -89,7 +89,7 @@ LITERALS = [
     ("U32STRING_LITERAL", 'U"s"'),
 ]
 
-PP = [("PPHASH", "#"), ("PPPRAGMA", "pragma"), ("PPPRAGMASTR", "omp x")]
+PP = [("PPHASH", "#"), ("PPPRAGMA", "pragma"), ("PPPRAGMASTR", "pack(1)")]
 
 
 def full_alphabet(idents=("IDENT:x", "IDENT:y", "IDENT:T"), literals=None, pp=True):
